@@ -392,7 +392,8 @@ open Moto.Disk in
 /-- **C12 (creating an archive and later listing or extracting it report the same sizes and block counts for the same file —
     disk archives, whole batch)**: for every create/add batch on a consistent image, every file the report announces stored —
     in the section of side `k`, with `ev.bytes` bytes and `ev.blocks` blocks — is, in the image the batch writes, a live entry of
-    side `k` in a slot that held nothing before, and the event a later `--list` / `--extract` prints for that entry
+    side `k` in a slot that held nothing before, carrying the entry bytes written for the announced name and extension
+    (`IsRecordOf`: the entry is that file's, not merely one of the same size), and the event a later `--list` / `--extract` prints for that entry
     (`evOfEntry`: `disk_list_report` / `report_lines_are_the_files`) carries the same byte size and the same block count, which is
     the length of the entry's chain in the allocation table: the blocks announced are the blocks the file really occupies
     (Proofs/DiskBlockCount.lean: on a consistent side the chain length of a tool-written entry is determined by its "bytes in
@@ -402,6 +403,7 @@ theorem disk_announced_sizes_and_blocks_are_the_listed_ones (w : Tape.World) (ve
     ∃ st, performCore w verbose img srcs = .ok st ∧ ImgOk st.img
       ∧ ∀ p ∈ storedOn 0 (batchEvents w srcs img), ∃ j bat own e, j < 112 ∧ SideInv (st.img.getD p.1 []) bat own
           ∧ imgFileAt img p.1 j = none ∧ entryAt (st.img.getD p.1 []) own j = some e
+          ∧ (∃ kind flag, IsRecordOf e.rec16 p.2.name p.2.ext kind flag p.2.bytes)
           ∧ (evOfEntry bat e).bytes = p.2.bytes ∧ (evOfEntry bat e).blocks = p.2.blocks ∧ (own j).length = p.2.blocks :=
   batch_blocks_listed w verbose img srcs himg hs
 
